@@ -10,5 +10,6 @@ Definition src_direct_and_fatal_guarded : bool := guarded_family [src_handler_sk
 (* resetOwnThread() as translated: drain before quit and clear *)
 Definition src_reset_is_ok : bool := reset_ok src_reset_prog.
 Definition src_signal_anchors : bool := src_signal_emits_in_send && src_signal_autoconnect && src_signal_type_registered.
+Definition src_no_shared_state : bool := src_handlers_no_shared_mutable_state.
 Extraction "conc_model.ml" accept_conc accepted_prefix a0 prop_c02_b src_family_bracketed src_full_family_guarded src_direct_and_fatal_guarded
-  accept_sig sig_prefix ss0 prop_sig_b prop_sig_strict_b src_reset_is_ok src_signal_anchors.
+  accept_sig sig_prefix ss0 prop_sig_b prop_sig_strict_b src_reset_is_ok src_signal_anchors src_no_shared_state.
